@@ -40,6 +40,7 @@ type (
 		Forall bool
 		Vars   []QVar
 		Body   Expr
+		Trig   []Expr
 	}
 	EOld struct{ X Expr }
 	ELet struct {
@@ -306,6 +307,7 @@ func (p *parser) parseExpr(minPrec int) Expr {
 func (p *parser) parseQuant() Expr {
 	k := p.next().text
 	var vars []QVar
+	var trig []Expr
 	for {
 		var names []string
 		names = append(names, p.next().text)
@@ -317,6 +319,18 @@ func (p *parser) parseQuant() Expr {
 		for _, n := range names {
 			vars = append(vars, QVar{n, ty})
 		}
+		if p.accept("{") {
+			// explicit instantiation triggers: forall x T {f(x), g(x)} :: body
+			for {
+				trig = append(trig, p.parseExpr(0))
+				if p.accept("}") {
+					break
+				}
+				if !p.accept(",") {
+					panic("expected , or } in trigger list")
+				}
+			}
+		}
 		if p.accept("::") {
 			break
 		}
@@ -325,7 +339,7 @@ func (p *parser) parseQuant() Expr {
 		}
 	}
 	body := p.parseExpr(0)
-	return EQuant{k == "forall", vars, body}
+	return EQuant{k == "forall", vars, body, trig}
 }
 
 // parseTypeText reads a type: ident(.ident)? | []T | *T | map[K]V | set[T] | seq[T]
